@@ -886,4 +886,157 @@ Proof.
         right. apply base_at_Some in E3 as (z & -> & Ez). exists z. split; [reflexivity|]. split; [exact Ez|]. congruence.
 Qed.
 
+(** ** Histories *)
+
+Notation hop := (@hop K).
+Notation hstep := (hstep Hh dge cname kle).
+Notation hrun := (hrun Hh dge cname kle).
+
+(** every run of the history starts in a state of the "no name clash" class *)
+Fixpoint fresh_hist (s : state) (ops : list hop) : Prop :=
+  match ops with
+  | [] => True
+  | o :: r => (o = HRun -> Fresh s) /\ fresh_hist (hstep s o) r
+  end.
+
+Definition is_user_op (o : hop) : Prop :=
+  match o with HWrite _ _ _ | HDelete _ _ => True | HRun | HFault => False end.
+
+Lemma hrun_app s l1 l2 : hrun s (l1 ++ l2) = hrun (hrun s l1) l2.
+Proof. apply foldl_app. Qed.
+
+Lemma hrun_snoc s l o : hrun s (l ++ [o]) = hstep (hrun s l) o.
+Proof. rewrite hrun_app. reflexivity. Qed.
+
+Lemma fresh_hist_app s l1 l2 : fresh_hist s (l1 ++ l2) <-> fresh_hist s l1 /\ fresh_hist (hrun s l1) l2.
+Proof.
+  revert s. induction l1 as [|o l1 IH]; intros s; cbn.
+  - tauto.
+  - rewrite IH. tauto.
+Qed.
+
+Lemma user_op_arch s o : is_user_op o -> arch (hstep s o) = arch s.
+Proof. destruct o as [[] ? ?|[] ?| |]; cbn; tauto. Qed.
+
+Definition Hinj : Prop := forall c c' : content, Hh c = Hh c' -> c = c'.
+
+Lemma Hinj_HashOk s : Hinj -> HashOk s.
+Proof. intros Hi p x y _ _ E. apply Hi, E. Qed.
+
+(** after a completed run the record is exactly the (common) tree *)
+Lemma run_arch_truthful s :
+  HashOk s -> Fresh s ->
+  tA (hstep s HRun) = tB (hstep s HRun) /\ arch (hstep s HRun) = Some (Hh <$> tA (hstep s HRun)).
+Proof.
+  intros Hok F. cbn. destruct (bisync_run s) as [[s' e] pl] eqn:R. cbn. split.
+  - eapply run_converges; eauto.
+  - eapply run_records_tree; eauto.
+Qed.
+
+(** whenever the record is trusted it is the tree both sides held at the end of
+    the most recent run, and nothing but user writes / deletes happened since *)
+Lemma arch_origin s0 ops z :
+  Hinj -> arch s0 = None -> fresh_hist s0 ops -> arch (hrun s0 ops) = Some z ->
+  exists pre post, ops = pre ++ HRun :: post /\ Forall is_user_op post /\
+    tA (hrun s0 (pre ++ [HRun])) = tB (hrun s0 (pre ++ [HRun])) /\
+    z = Hh <$> tA (hrun s0 (pre ++ [HRun])).
+Proof.
+  intros Hi H0. revert z. induction ops as [|o ops IH] using rev_ind; intros z FH Hz.
+  - cbn in Hz. congruence.
+  - apply fresh_hist_app in FH as [FH1 FH2]. cbn in FH2. rewrite hrun_snoc in Hz.
+    destruct o as [sd p c|sd p| |].
+    + rewrite user_op_arch in Hz by exact I. destruct (IH z FH1 Hz) as (pre & post & -> & Hp & Q).
+      exists pre, (post ++ [HWrite sd p c]). rewrite <- app_assoc. split; [reflexivity|].
+      split; [|exact Q]. apply Forall_app. split; [exact Hp|]. repeat constructor.
+    + rewrite user_op_arch in Hz by exact I. destruct (IH z FH1 Hz) as (pre & post & -> & Hp & Q).
+      exists pre, (post ++ [HDelete sd p]). rewrite <- app_assoc. split; [reflexivity|].
+      split; [|exact Q]. apply Forall_app. split; [exact Hp|]. repeat constructor.
+    + exists ops, []. split; [reflexivity|]. split; [constructor|]. rewrite hrun_snoc.
+      destruct (run_arch_truthful (hrun s0 ops) (Hinj_HashOk _ Hi) (proj1 FH2 eq_refl)) as [Q1 Q2].
+      split; [exact Q1|]. rewrite Q2 in Hz. congruence.
+    + cbn in Hz. discriminate.
+Qed.
+
+(** user operations between two runs do not touch the record *)
+Lemma user_ops_keep_arch s ops : Forall is_user_op ops -> arch (hrun s ops) = arch s.
+Proof.
+  induction ops as [|o ops IH] using rev_ind; intros Hf; [reflexivity|].
+  apply Forall_app in Hf as [Hf Ho]. rewrite hrun_snoc, user_op_arch; [apply IH, Hf|].
+  inversion Ho; assumption.
+Qed.
+
+(** [c] at [p] on side [sd] is what BOTH sides held at [p] at the end of the
+    previous completed run, only user writes / deletes happened since, and the other
+    side has changed or deleted the path *)
+Definition superseded_hist (s0 : state) (pre : list hop) (sd : side) (p : K) (c : content) : Prop :=
+  exists pre1 pre2, pre = pre1 ++ HRun :: pre2 /\ Forall is_user_op pre2 /\
+    tA (hrun s0 (pre1 ++ [HRun])) !! p = Some c /\ tB (hrun s0 (pre1 ++ [HRun])) !! p = Some c /\
+    side_tree (other sd) (hrun s0 pre) !! p <> Some c.
+
+Lemma history_no_loss s0 pre :
+  Hinj -> arch s0 = None -> fresh_hist s0 (pre ++ [HRun]) ->
+  forall sd p c, side_tree sd (hrun s0 pre) !! p = Some c ->
+    kept (hrun s0 pre) (hrun s0 (pre ++ [HRun])) p c \/ superseded_hist s0 pre sd p c.
+Proof.
+  intros Hi H0 FH sd p c Hc. apply fresh_hist_app in FH as [FH1 FH2]. cbn in FH2.
+  rewrite hrun_snoc. cbn [Bisync.hstep]. destruct (bisync_run (hrun s0 pre)) as [[s' e] pl] eqn:R. cbn.
+  destruct (run_no_loss _ _ _ _ (Hinj_HashOk _ Hi) (proj1 FH2 eq_refl) R sd p c Hc) as [Kp|(z & Ez & Ezp & Ho)];
+    [left; exact Kp|right].
+  destruct (arch_origin s0 pre z Hi H0 FH1 Ez) as (pre1 & pre2 & -> & Hu & Eab & ->).
+  exists pre1, pre2. split; [reflexivity|]. split; [exact Hu|].
+  rewrite lookup_fmap in Ezp. rewrite <- Eab.
+  destruct (tA (hrun s0 (pre1 ++ [HRun])) !! p) as [c'|]; [|discriminate]. cbn in Ezp. injection Ezp as Ezp.
+  apply Hi in Ezp. subst c'. auto.
+Qed.
+
+(** ** C07: no trusted record *)
+
+Lemma untrusted_plan_no_delete (a b : gmap K D) p :
+  (p, DelA) ∉ plan a b None /\ (p, DelB) ∉ plan a b None.
+Proof.
+  split; intros [_ R]%elem_of_plan; cbn in R; destruct (a !! p), (b !! p); cbn in R; try discriminate;
+    repeat (case_decide || case_bool_decide || discriminate).
+Qed.
+
+Lemma fin_untrusted s p : arch s = None -> p ∈ keys s -> is_Some (fin s p).
+Proof.
+  intros Hz Hp. apply elem_of_keys in Hp. unfold fin, final_content. rewrite Hz. cbn.
+  destruct (tA s !! p), (tB s !! p); repeat case_decide; eauto; try discriminate.
+  destruct Hp as [[? ?]|[? ?]]; discriminate.
+Qed.
+
+Lemma untrusted_run_preserves_all s s' e pl :
+  HashOk s -> Fresh s -> arch s = None -> bisync_run s = (s', e, pl) ->
+  (forall sd p c, side_tree sd s !! p = Some c -> kept s s' p c) /\
+  dom (tA s) ∪ dom (tB s) ⊆ dom (tA s') /\ dom (tA s') = dom (tB s').
+Proof.
+  intros Hok F Hz R. split; [|split].
+  - intros sd p c Hc. destruct (run_no_loss s s' e pl Hok F R sd p c Hc) as [Kp|(z & Ez & _)]; [exact Kp|congruence].
+  - rewrite (run_result s Hok F) in R. injection R as <- _ _. cbn. intros x Hx. fold (keys s) in Hx.
+    apply elem_of_dom. destruct (run_lookup s Hok F x) as (-> & _ & _).
+    destruct (conflict_name_dec s x) as [[[p l] E]|N].
+    + cbn in E. rewrite (expected_name _ _ _ _ F E). eauto.
+    + rewrite (expected_other _ _ N). apply fin_untrusted; assumption.
+  - rewrite (run_converges s s' e pl Hok F R). reflexivity.
+Qed.
+
+(** a fault before the run (with only user operations in between): every version
+    present when the run starts is on both sides when it ends *)
+Lemma fault_then_history_no_loss s0 pre1 pre2 :
+  Hinj -> Forall is_user_op pre2 -> fresh_hist s0 (pre1 ++ HFault :: pre2 ++ [HRun]) ->
+  let s := hrun s0 (pre1 ++ HFault :: pre2) in
+  let s' := hrun s0 (pre1 ++ HFault :: pre2 ++ [HRun]) in
+  (forall sd p c, side_tree sd s !! p = Some c -> kept s s' p c) /\
+  dom (tA s) ∪ dom (tB s) ⊆ dom (tA s') /\ dom (tA s') = dom (tB s').
+Proof.
+  intros Hi Hu FH. cbv zeta.
+  replace (pre1 ++ HFault :: pre2 ++ [HRun]) with ((pre1 ++ HFault :: pre2) ++ [HRun]) in *
+    by (rewrite <- app_assoc; reflexivity).
+  apply fresh_hist_app in FH as [_ FH2]. cbn in FH2. rewrite hrun_snoc. cbn [Bisync.hstep].
+  destruct (bisync_run (hrun s0 (pre1 ++ HFault :: pre2))) as [[s' e] pl] eqn:R. cbn.
+  apply (untrusted_run_preserves_all _ s' e pl (Hinj_HashOk _ Hi) (proj1 FH2 eq_refl)); [|exact R].
+  rewrite hrun_app. cbn [Bisync.hrun foldl]. fold (hrun (hstep (hrun s0 pre1) HFault) pre2).
+  rewrite user_ops_keep_arch by exact Hu. reflexivity.
+Qed.
+
 End BisyncProofs.
